@@ -1319,7 +1319,11 @@ func genE2ESstRaw(r *rand.Rand, profile string) string {
 	for k, n := 0, 2+r.Intn(6); k < n; k++ {
 		v := int64(r.Intn(30) - 6)
 		if r.Intn(12) == 0 {
-			v = []int64{9007199254740993, -9007199254740993, 4611686018427387904, 255, 256, 65536}[r.Intn(6)]
+			big := int64(4611686018427387904) // 2^62: a few of them leave int64, the sum is continued as a float64 (rounding granted by C04)
+			if profile == "c03" {
+				big = 1 << 40 // c03 compares the two layouts' rows literally: sums must stay exact in every order of addition
+			}
+			v = []int64{9007199254740993, -9007199254740993, big, 255, 256, 65536}[r.Intn(6)]
 		}
 		ints = append(ints, fmt.Sprintf("i%d", v))
 		decs = append(decs, "d"+dyadic(r))
